@@ -771,6 +771,12 @@ def mon_c14(ix: Index):  # noqa: C901, PLR0912
                 want = None
             if want is not None and e.get("val") != want:
                 out.append(V("C14", "C14/%s-result-not-delivered-payload" % ok_, "%s returned %s, external party delivered %r" % (path, str(e.get("val"))[:80], str(raw)[:80]), e["i"]))
+        elif k == "ret" and ok_ == "wfcb" and d is not None and d.get("status") == "SUCCEEDED" and not cfg.get("serdes"):
+            # wait_for_callback hands the delivered payload through - in the invocation that saw the completion and in every later one
+            n += 1
+            raw = d.get("result")
+            if raw and e.get("val") != canon(raw):
+                out.append(V("C14", "C14/wfcb-result-not-delivered-payload", "%s returned %s, external party delivered %r" % (path, str(e.get("val"))[:80], str(raw)[:80]), e["i"]))
         elif k == "exc" and ok_ in ("cb", "invoke"):
             mro = e.get("mro") or []
             if e.get("st") == "SUCCEEDED" and e.get("phase") != "create" and "InvocationError" not in mro and mro and mro[0] != "BaseException":
